@@ -167,6 +167,15 @@ def forced(rng, tier):
     return out
 
 
+def known_finding_items():
+    """deterministic reproductions of the recorded (not repaired) findings; reported as KNOWN-FINDING"""
+    big = "00" * 4000
+    d13 = Custom(900, "known.D13.blocked-write",
+                 [["dial", "c1"], ["recv", "c1", 1, 1000], ["send", "c1", OP, 0], ["send", "c1", KA, 0], ["sleep", 40],
+                  ["stop_reading", "c1"], ["writers", 4, 4000, 4000, "async"], ["sleep", 700], ["api", "close", 2500]], passive=True, final_close_ms=300)
+    return [d13]
+
+
 def conv_judge(c, e, o, r):
     return shutdown_judge(r, steps=c.scenario()["steps"])
 
@@ -258,6 +267,10 @@ def sys_part(tier, rng, rep, replay):
                 rep.sys_found = True
     except Exception as ex:  # the race build needs cgo; record when unavailable
         cov["race_detector"] = {"unavailable": str(ex)[:200]}
+    # recorded findings: reproduced in a process of their own (they leave goroutines behind)
+    kf = known_finding_items()
+    covk = sysrun.run_convs(PID, kf, rep, extra_check=conv_judge, par=1, kinds=("monitor",))
+    cov["known_finding_reproductions"] = covk["evaluations"]
     cov["rule"] = RULE
     return cov
 
